@@ -20,7 +20,7 @@ TRANSLATE = True
 TRANSLATE_ALGO = ["AlgoTraverse", "AlgoNode", "AlgoBranches", "AlgoSubtree", "AlgoLMeasure", "AlgoSholl", "AlgoFeatFront"]
 DRIVER_FILES = ["SwcVerif/Model/AlgoRunLMeasure.lean", "SwcVerif/Model/PyMore.lean", "SwcVerif/Model/AlgoRunSholl.lean", "SwcVerif/Model/PySholl.lean",
                 "SwcVerif/Model/PyResample.lean"]
-LEAN_MODS = ["SwcVerif.Props.C10", "SwcVerif.Proofs.Represent", "SwcVerif.Props.C10Gen"]
+LEAN_MODS = ["SwcVerif.Props.C10", "SwcVerif.Proofs.Represent", "SwcVerif.Props.C10Gen", "SwcVerif.Props.C10Sholl"]
 THEOREMS = [
     "C10.length_eq_sum_edges", "C10.chainLength_eq", "C10.length_eq_sum_branches", "C10.branches_eq", "C10.counts", "C10.path_distance_eq_sum",
     "C10.branch_order_eq_furcations_on_path", "C10.terminal_degree_eq_tips_below", "C10.sholl_eq_straddle_count", "C10.partition_asymmetry_def",
@@ -31,6 +31,12 @@ THEOREMS = [
     "RefineLm.kids_closed", "RefineLm.terminalDegree_refines", "C10.generated_terminal_degree", "C10.generated_terminal_degree_wf",
     "C10.generated_branch_order", "C10.generated_branch_order_eq_model", "C10.generated_n_stems", "C10.generated_n_tips", "C10.generated_n_tips_tree",
     "C10.generated_n_bifs", "C10.generated_n_branch", "C10.generated_fragmentation",
+    # refinement (T16): the definitions generated from sholl.py / tree.py / compartment.py / feature_extractor.py on this run
+    "RefineSholl.segments_refines", "RefineSholl.compartments_get_ndata_refines", "RefineSholl.init_refines", "RefineSholl.init_single",
+    "RefineSholl.intersect_refines", "RefineSholl.get_arr_refines", "RefineSholl.get_arr_eq_intersect", "RefineSholl.get_int_refines",
+    "RefineSholl.get_rs_self_int_eq", "RefineSholl.population_refines",
+    "C10.generated_sholl_init", "C10.generated_sholl_init_single", "C10.generated_sholl_intersect", "C10.generated_sholl_get",
+    "C10.generated_sholl_get_steps", "C10.generated_population_rows",
 ]
 TRUSTED = ["hand-written models Model/Features.lean (lengths as sums of edge lengths, counts, orders, Sholl straddle rule), tied by the c10.features correspondence "
            "(exact on lattice trees whose edges are axis-aligned with integer length); partition_asymmetry is regenerated from lmeasure.py (Gen/LMeasureArith.lean)"]
